@@ -178,3 +178,34 @@ func init() {
 		ruleNoPanicCalls(c, r, fs)
 	})
 }
+
+func init() {
+	register("C30", func(c *Ctx, r *Report) {
+		r.Decides("leafref errors are dropped only under IgnoreMissingData (which also skips the walk); every resolution/lookup/match error in the per-node iterator is returned; matchesNodes reports a match only for an empty source or after a successful equality test and reports none for an empty node set; dataNodesAtPath moves its data and memo cursors in lock step and caches under the string of the path it resolves; a missing list key is tolerated only when absent (not when empty) and only under partialKeyMatch.",
+			"XPath node-set semantics of the leafref path for all trees; predicate evaluation against current data at value level.")
+		ruleLeafrefErr(c, r)
+		ruleLeafrefMatch(c, r)
+		ruleLockstep(c, r)
+		rulePartialKey(c, r)
+		ruleWildcardOpt(c, r)
+	})
+}
+
+func init() {
+	register("C32", func(c *Ctx, r *Report) {
+		r.Decides("PruneConfigFalse always walks the struct it is given with the schema it is given; the iterator's only write zeroes the visited field and is reached only for a schema that util.IsConfig reports false; fields are skipped only for the documented reasons; IsConfig is goyang's inherited config decision.",
+			"that util.Walk visits every populated field of every tree (traversal completeness); value-level equality of the config-true remainder.")
+		rulePruneConfigFalse(c, r)
+	})
+}
+
+func init() {
+	register("C31", func(c *Ctx, r *Report) {
+		r.Decides("unmarshalStruct creates only nil fields and descends only into mentioned fields; a mentioned leaf-list is cleared before it is filled on every successful path; a keyed-list element is merged into the existing entry when the key is present; the unknown-member check runs exactly when IgnoreExtraFields is absent and its error is returned; options are forwarded to every nested unmarshal call.",
+			"the leaf-level merge result for all (tree, JSON) pairs; behaviour of ordered-map insertion (generated Append semantics, C15).")
+		ruleStructMerge(c, r)
+		ruleLeafListReplace(c, r)
+		ruleListMerge(c, r)
+		ruleOptsForward(c, r, c.anchored("C31", "ytypes/leaf.go", "ytypes/choice.go"), 13)
+	})
+}
